@@ -46,7 +46,7 @@ def run_pdf(shard, ctx):
     tier, seed = shard["tier"], shard["seed"]
     kind, D = shard["kind"], shard["D"]
     diag = "Diag" in kind
-    vis = [0, 1, 2, 100] if tier == "quick" else [0, 1, 2, 3, 4, 5, 100, 101, 102]
+    vis = [0, 1, 2, 100, objs.HARD] if tier == "quick" else [0, 1, 2, 3, 4, 5, 100, 101, 102, objs.HARD]
     for R in BOUNDS[tier]["R"]:
         for vi in vis:
             tag = ("c13", kind, D, R)
@@ -60,10 +60,15 @@ def run_pdf(shard, ctx):
                     ctx.close("entropy.value", H, np.array([rm.entropy(Sig_e[r]) for r in range(R)]), facts=dict(prep=prep))
                     if D <= 2:
                         Hq = np.zeros(R)
+                        lsc = 1.0
                         for r in range(R):
                             xs, ws = rm.gauss_hermite(mu_e[r], Sig_e[r], 6)
-                            Hq[r] = -np.sum(ws * np.asarray(p.evaluate_ln(J(xs)))[r])
-                        ctx.close("entropy.minus_E_ln_p", H, Hq, facts=dict(prep=prep))
+                            lv = np.asarray(p.evaluate_ln(J(xs)))[r]
+                            Hq[r] = -np.sum(ws * lv)
+                            Lr = np.linalg.inv(Sig_e[r])
+                            lsc = max(lsc, float(np.max(0.5 * np.einsum("ni,ij,nj->n", xs, Lr, xs))))
+                        # ln p(x) is a difference of terms of size x'Lambda x/2: its natural scale for a mean far from the origin
+                        ctx.close("entropy.minus_E_ln_p", H, Hq, scale=lsc, facts=dict(prep=prep))
                     # KL against an independently built density with the same components is zero; against a fixed q it is the closed form
                     same = objs.mk_pdf("GaussianPDF", Sig_e, mu_e)
                     ctx.close("kl.history_self_zero", np.asarray(p.kl_divergence(same)), np.zeros(R), tol=1e-9, facts=dict(prep=prep))
